@@ -23,7 +23,7 @@ EXPLANATION = ('Dominance rules with strength over the CFG of lz4::decompress, r
                'decremented after every copy, the source cursor is tested before every read of the sequence header, the constants are '
                'coherent, and the wrapper neither skips a result check nor rejects more than the decoder contract.  That the bytes '
                'produced equal a reference decoder\'s and that compressed fonts shape identically are run-time facts, not decided.')
-FLOORS = {'COPYGUARD': 6, 'BOOKKEEPING': 2, 'SEQGUARD': 3, 'LZCONST': 1, 'DECOMPRESS': 6}
+FLOORS = {'COPYGUARD': 11, 'BOOKKEEPING': 2, 'SEQGUARD': 3, 'LZCONST': 1, 'DECOMPRESS': 6}
 
 import re
 
@@ -430,9 +430,145 @@ def decompress(run, fx):
         run.held('DECOMPRESS', 'transparent for every shrinking encoding', dc.loc(c), 'no size rejection beyond the decoder\'s own out_size > in_size')
 
 
+def copyexec(run, fx):
+    """COPYGUARD, the helpers' own contracts, by bounded abstract execution (rules/ordint.py) on a byte buffer whose cells carry their
+    origin: safe_copy(d, s, n) for n = 0..12 with the source 1..9 bytes BEHIND the destination in the same buffer (an LZ4 match
+    overlapping its own output) writes exactly out[i] = out[i - distance] for i < n and nothing else -- the replicating copy a byte-forward
+    loop gives and memmove does not; fast_copy (disjoint buffers) writes exactly n bytes; overrun_copy writes the n bytes and at most up
+    to the next word boundary after them.  Each returns d + n.  If overrun_copy stores anything for n == 0 (a do-while does), every
+    overrun_copy call in lz4::decompress must be dominated by n != 0."""
+    from . import ordint as O
+    def memcpy_native(it, f, e, obj, args):
+        d, s_, n_ = [it.rv(a) for a in args[:3]]
+        if not (isinstance(d, O.It) and isinstance(s_, O.It) and isinstance(n_, int)):
+            raise AnalysisBroken('memcpy/memmove with arguments the byte model does not know')
+        src = [it.deref_it(O.It(s_.vec, s_.idx + k, s_.gen), f, e).load() for k in range(n_)]     # snapshot first: memmove semantics
+        for k in range(n_):
+            it.deref_it(O.It(d.vec, d.idx + k, d.gen), f, e).store(src[k])
+            it.written.add((id(d.vec), d.idx + k))
+        return d
+    nat = {'memcpy': memcpy_native, 'memmove': memcpy_native, '__builtin_memcpy': memcpy_native, '__builtin_memmove': memcpy_native}
+
+    class Trk(O.Interp):
+        pass
+
+    def runone(fn, mem, d, s_, n):
+        it = Trk(fx, natives=nat)
+        it.written = set()
+        it.MAX_STEPS = 4000
+        # every store through a pointer into the buffer is recorded
+        orig = it.deref_it
+
+        def spy(p_, f_, e_):
+            lv = orig(p_, f_, e_)
+            return lv
+        r = it.call(fn, None, [d, s_, n])
+        return it, r
+    probs = {}
+    stats = {}
+    for name in ('safe_copy', 'fast_copy', 'overrun_copy'):
+        fns = fx.fns_named('(anonymous namespace)::' + name)
+        if not fns:
+            run.broken('COPYGUARD', '%s keeps its contract' % name, 'function not found')
+            continue
+        fn = fns[0]
+        cases = 0
+        prob = None
+        zero_writes = False
+        for n in range(0, 13):
+            dists = range(1, 10) if name == 'safe_copy' else (None,)
+            for dist in dists:
+                if dist is None:
+                    src = O.Vec(['s%d' % k for k in range(40)])
+                    dst = O.Vec(['d%d' % k for k in range(40)])
+                    d0, s0 = O.It(dst, 4), O.It(src, 4)
+                    before = list(dst.items)
+                else:
+                    dst = O.Vec(['m%d' % k for k in range(48)])
+                    src = dst
+                    d0, s0 = O.It(dst, 16), O.It(dst, 16 - dist)
+                    before = list(dst.items)
+                try:
+                    it, r = runone(fn, dst, d0, s0, n)
+                except O.Violation as v:
+                    prob = 'n=%d%s: %s (%s)' % (n, '' if dist is None else ' distance %d' % dist, v.what, v.loc)
+                    break
+                cases += 1
+                after = dst.items
+                changed = [k for k in range(len(after)) if after[k] != before[k]]
+                if not (isinstance(r, O.It) and r.vec is dst and r.idx == d0.idx + n):
+                    prob = 'n=%d: returns %s, expected d + n' % (n, ('d%+d' % (r.idx - d0.idx)) if isinstance(r, O.It) else repr(r))
+                    break
+                if dist is not None:
+                    exp = list(before)
+                    for i in range(n):
+                        exp[16 + i] = exp[16 + i - dist]
+                    if after != exp:
+                        bad = [k - 16 for k in range(len(after)) if after[k] != exp[k]]
+                        prob = ('n=%d, source %d byte(s) behind the destination: output bytes %s differ from the replicating copy out[i] = out[i-%d] '
+                                '(an overlapping LZ4 match is decoded wrongly)' % (n, dist, bad[:6], dist))
+                        break
+                else:
+                    lo = d0.idx
+                    exact = [k for k in range(n) if after[lo + k] != 's%d' % (4 + k)]
+                    if exact:
+                        prob = 'n=%d: byte(s) %s of the destination do not hold the source bytes' % (n, exact[:6])
+                        break
+                    outside = [k - lo for k in changed if not (lo <= k < lo + n)]
+                    if name == 'fast_copy' and outside:
+                        prob = 'n=%d: fast_copy writes outside [d, d+n): offsets %s' % (n, outside[:6])
+                        break
+                    if name == 'overrun_copy':
+                        wrote = {k - lo for (_, k) in it.written}
+                        if n == 0 and wrote:
+                            zero_writes = True
+                        lim = ((n + 7) // 8) * 8 if n else 8
+                        if any(k < 0 or k >= lim for k in wrote):
+                            prob = 'n=%d: overrun_copy writes offsets %s, beyond the word boundary after the data (align(n) = %d)' % (n, sorted(k for k in wrote if k < 0 or k >= lim)[:6], lim)
+                            break
+            if prob:
+                break
+        inst = '%s keeps its contract' % name
+        if prob:
+            run.violated('COPYGUARD', inst, fn.where(), '%s: %s' % (name, prob))
+        else:
+            run.held('COPYGUARD', inst, fn.where(), '%d abstract executions (n = 0..12%s)' % (cases, ', distances 1..9' if name == 'safe_copy' else ''))
+        stats[name] = zero_writes
+    if stats.get('overrun_copy'):
+        fn, cn = decompress_roles(fx)
+        for e in [e for e in calls_in(fn) if (e.get('fq') or '').split('::')[-1] == 'overrun_copy']:
+            nexp = fn.render(fn.strip_all_casts(e['args'][2]))
+            fs = dom.facts_at(fn, e['i'])
+            ok = any((f[0] == nexp and ((f[1] == '!=' and f[2] == '0') or (f[1] in ('>', '>=') and f[2].lstrip('-').isdigit() and int(f[2]) >= (0 if f[1] == '>' else 1)))) for f in fs)
+            inst = 'overrun_copy(.., %s) is never asked to copy nothing' % cn(nexp)
+            why = 'dominated by %s != 0' % cn(nexp)
+            if not ok:
+                # a length that read_sequence produces as `<something> + positive constant` (match_len = .. + MINMATCH) cannot be 0
+                rsq = fx.one('(anonymous namespace)::read_sequence')
+                rcall = calls_in(fn, '(anonymous namespace)::read_sequence')
+                pos = [k for k, a in enumerate(rcall[0]['args']) if fn.render(fn.strip_all_casts(a)) == nexp] if rcall else []
+                if pos:
+                    pn = rsq.f['params'][pos[0]]['n']
+                    for _, u in rsq.elements():
+                        if u['k'] == 'BinaryOperator' and u['op'] == '=' and rsq.render(rsq.N(u['c'][0])) == pn:
+                            r_ = rsq.strip_all_casts(u['c'][1])
+                            if r_['k'] == 'BinaryOperator' and r_['op'] == '+' and any((dom._cval(rsq, c_) or 0) > 0 for c_ in r_['c']):
+                                ok = True
+                                why = 'read_sequence produces it as %s: at least %d' % (rsq.render(r_), max((dom._cval(rsq, c_) or 0) for c_ in r_['c']))
+            if ok:
+                run.held('COPYGUARD', inst, fn.loc(e), why)
+            else:
+                run.violated('COPYGUARD', inst, fn.loc(e), 'overrun_copy stores a whole word even for n == 0 (its loop tests after the first copy), and this call is not dominated by '
+                             '%s != 0: an empty literal / match writes 8 bytes that align(0) = 0 did not account for -- beyond the announced output size when fewer than 8 bytes remain' % cn(nexp))
+
+
 def run(run):
     fx = run.facts('Q0')
     copyguard(run, fx)
+    try:
+        copyexec(run, fx)
+    except AnalysisBroken as ex:
+        run.broken('COPYGUARD', 'copy helpers keep their contracts', str(ex))
     bookkeeping(run, fx)
     seqguard(run, fx)
     lzconst(run, fx)
